@@ -492,6 +492,10 @@ impl Iterator for QueryState<'_> {
 
         let var_dict = &term_write_result.var_dict;
 
+        // the names given to anonymous variables are shared by all the
+        // bindings of one answer: distinct variables get distinct names.
+        let mut answer_var_names = var_names.clone();
+
         for (var_key, term_to_be_printed) in var_dict.iter() {
             let mut var_name = var_key.to_string();
             if var_name.starts_with('_') {
@@ -505,7 +509,7 @@ impl Iterator for QueryState<'_> {
             }
 
             let mut term =
-                Term::from_heapcell(machine, *term_to_be_printed, &mut var_names.clone());
+                Term::from_heapcell(machine, *term_to_be_printed, &mut answer_var_names);
 
             if let Term::Var(ref term_str) = term {
                 if *term_str == var_name {
